@@ -271,12 +271,31 @@ class Net:
             self.on_connect(tr)
         return tr, proto
 
+    def connect_error(self):
+        """A failed connect as the OS / asyncio report it: refused, unreachable host or network, name resolution failure, asyncio's
+        aggregated error for a multi-address host, connection timed out - all OSError, only some of them ConnectionError."""
+        import errno
+        import socket
+        self.connect_failures = getattr(self, "connect_failures", 0) + 1
+        k = self.connect_failures % 6
+        if k == 1:
+            return ConnectionRefusedError(errno.ECONNREFUSED, "Connect call failed ('10.0.0.1', 6444)")
+        if k == 2:
+            return OSError(errno.EHOSTUNREACH, "No route to host")
+        if k == 3:
+            return OSError(errno.ENETUNREACH, "Network is unreachable")
+        if k == 4:
+            return socket.gaierror(socket.EAI_NONAME, "Name or service not known")
+        if k == 5:
+            return OSError("Multiple exceptions: [Errno 111] Connect call failed ('10.0.0.1', 6444), [Errno 113] Connect call failed ('10.0.0.2', 6444)")
+        return TimeoutError(errno.ETIMEDOUT, "Connection timed out")
+
     async def connect(self, factory, host, port):
         self.connect_requests += 1
         self.log(("connreq", host, port))
         mode = self.connect_mode
         if mode == "refuse":
-            raise ConnectionRefusedError(111, "refused")
+            raise self.connect_error()
         if mode == "hang":
             await asyncio.sleep(10 ** 6)
         if mode == "manual":
@@ -287,7 +306,7 @@ class Net:
             finally:
                 self.pending_connect = None
             if verdict == "refuse":
-                raise ConnectionRefusedError(111, "refused")
+                raise self.connect_error()
         return self._open(factory, host, port)
 
     async def datagram(self, factory, local_addr, remote_addr):
